@@ -96,6 +96,9 @@ def run(ctx):
                 ops += [["write"], ["load"]]
             elif r < 0.4:
                 ops.append(["write"])
+            elif r < 0.45:
+                # a failed attempt to store something unserializable must leave the stored file as it was
+                ops += [["write"], ["trywrite", rng.choice([{"k": b"bytes"}, {"s": {1, 2}}, [b"x"], {"signatures": {}, "signed": {"v": bytearray(b"y")}}])], ["load"]]
             elif r < 0.55:
                 ops.append(["sign", SEEDS[rng.randrange(5)]])
             else:
